@@ -103,7 +103,7 @@ func (m *Model) inferAccount(t *syntax.Transaction, b *syntax.Booking, other str
 			continue // the other account of this booking is not a valid candidate
 		}
 		score := m.scoreCandidate(candidate, tokens)
-		if score > max {
+		if score > max || (score == max && candidate < best) {
 			best = candidate
 			max = score
 		}
